@@ -446,13 +446,17 @@ def rule_commit(facts):
     tm = Terms(p)
     c = cfg(p)
     gs, _ = pat.guards(p)
-    tries = [blk for blk in p.calls() if (flow.callee(blk.term) or "").endswith("try_process_next")]
-    commits = [blk for blk in p.calls() if (flow.callee(blk.term) or "").endswith("DecoderState::process_next")]
-    r.sites = len(commits)
-    r.need("two dry runs and two committed steps", len(tries) == 2 and len(commits) == 2)
-    if len(tries) != 2 or len(commits) != 2:
-        return r
     heads = c.loop_headers()
+    inloop = set()
+    for h_, bl_, _ in c.loops():
+        inloop |= bl_
+    # the protocol concerns the decoding loop; steps after it (e.g. end-marker handling in Finish mode) are not streaming steps
+    tries = [blk for blk in p.calls() if (flow.callee(blk.term) or "").endswith("try_process_next") and blk.idx in inloop]
+    commits = [blk for blk in p.calls() if (flow.callee(blk.term) or "").endswith("DecoderState::process_next") and blk.idx in inloop]
+    r.sites = len(commits)
+    r.need("dry runs and committed steps inside the decoding loop, one dry run per committed step", len(tries) >= 1 and len(tries) == len(commits))
+    if not tries or len(tries) != len(commits):
+        return r
     for tr in tries:
         fn = "process_mode"
         # the committed step that follows this dry run
